@@ -210,3 +210,59 @@ def poly_close(p, q, rtol=1e-12, scale=None):
 def poly_json(p, limit=12):
     items = sorted(p.items())[:limit]
     return [[list(k), str(v)] for k, v in items]
+
+
+def graph_integrity(graph):
+    """Independent statement of what the library's OpGraph.is_consistent checks (keys, mutual references, sorted operator
+    lists, terminal nodes, well-defined node levels from both ends). Returns None or a description of the first problem."""
+    for k, node in graph.nodes.items():
+        if k != node.nid:
+            return f'node key {k} != node id {node.nid}'
+        for d in (0, 1):
+            for eid in node.eids[d]:
+                if eid not in graph.edges:
+                    return f'node {k} refers to missing edge {eid}'
+                if graph.edges[eid].nids[1 - d] != k:
+                    return f'edge {eid} listed by node {k} (direction {d}) does not end there'
+    for k, edge in graph.edges.items():
+        if k != edge.eid:
+            return f'edge key {k} != edge id {edge.eid}'
+        if len(edge.nids) != 2:
+            return f'edge {k} does not connect two nodes'
+        for d in (0, 1):
+            if edge.nids[d] not in graph.nodes:
+                return f'edge {k} refers to missing node {edge.nids[d]}'
+            if k not in graph.nodes[edge.nids[d]].eids[1 - d]:
+                return f'node {edge.nids[d]} does not list edge {k}'
+        if list(edge.opics) != sorted(edge.opics):
+            return f'operator list of edge {k} is not sorted'
+    for d in (0, 1):
+        t = graph.nid_terminal[d]
+        if t not in graph.nodes:
+            return f'terminal node {t} missing'
+        if graph.nodes[t].eids[d]:
+            return f'terminal node {t} has edges pointing outwards'
+    for d in (0, 1):
+        level = {graph.nid_terminal[d]: 0}
+        frontier = [graph.nid_terminal[d]]
+        while frontier:
+            nxt = []
+            for nid in frontier:
+                for eid in graph.nodes[nid].eids[1 - d]:
+                    t = graph.edges[eid].nids[1 - d]
+                    if t in level:
+                        if level[t] != level[nid] + 1:
+                            return f'node {t} is reached at two different distances from terminal {d}'
+                    else:
+                        level[t] = level[nid] + 1
+                        nxt.append(t)
+            frontier = nxt
+    return None
+
+
+def require_consistent(graph, what):
+    """The graph passes the library's own consistency check and the independent statement of the same conditions."""
+    from core import require
+    require(graph.is_consistent(), what + ': graph fails its own consistency check')
+    why = graph_integrity(graph)
+    require(why is None, what + ': graph structure is broken although is_consistent() accepted it', problem=why)
